@@ -17,12 +17,14 @@ package proto
 import "errors"
 
 const (
-	errorEmptyMessage            = "message is short (%d)"
-	errorUnknownMessageType      = "unknown message type (%c)"
-	errorInvalidMessageType      = "invalid message type (%c)"
-	errorInvalidMessage          = "invalid message (%s)"
-	errorInvalidBulkStringLength = "invalid bulk string length (%d != %d)"
-	errorInvalidBulkStringDelim  = "invalid bulk string ending delimiter %s"
+	errorEmptyMessage             = "message is short (%d)"
+	errorUnknownMessageType       = "unknown message type (%c)"
+	errorInvalidMessageType       = "invalid message type (%c)"
+	errorInvalidMessage           = "invalid message (%s)"
+	errorInvalidBulkStringLength  = "invalid bulk string length (%d != %d)"
+	errorInvalidBulkStringDelim   = "invalid bulk string ending delimiter %s"
+	errorTooLargeBulkStringLength = "too large bulk string length (%d > %d)"
+	errorTooLargeArraySize        = "too large array size (%d > %d)"
 )
 
 // ErrEOM is the error returned by Array::Next() when no more message is available.
